@@ -304,3 +304,116 @@ pub fn replay_history<S: System>(mut s: S, case: &Value) -> Result<(), String> {
     }
     Ok(())
 }
+
+
+/// BFS by replay where every rebuild runs as one *isolated execution* (fresh OS thread, entropy
+/// stream and virtual clock reset): needed when the subject's observable behaviour depends on
+/// hash-map iteration order or on randomness. `make` must also reset any process-global state
+/// of the subject (id allocators, timer registries).
+pub fn bfs_replay_iso<S, M>(seed: u64, make: M, depth: usize, max_states: u64) -> (BfsStats, Vec<Violation<S::Action>>)
+where
+    S: System,
+    S::Action: Send + Sync,
+    M: Fn() -> S + Sync,
+{
+    struct Node<A> {
+        canon: u128,
+        nontrivial: bool,
+        actions: Vec<A>,
+    }
+    // run history `h`; Err = violation message, with the index of the failing step
+    let eval = |h: &[S::Action]| -> Result<Node<S::Action>, (usize, String)> {
+        let r = crate::shim::isolated_scoped(seed, || {
+            let mut s = make();
+            if h.is_empty() {
+                s.invariant().map_err(|m| (0usize, m))?;
+            }
+            for (i, a) in h.iter().enumerate() {
+                let last = i + 1 == h.len();
+                s.step(a).map_err(|m| (i, if last { m } else { format!("NONDETERMINISM replay diverged :: {m}") }))?;
+                if last {
+                    s.invariant().map_err(|m| (i, m))?;
+                }
+            }
+            Ok(Node { canon: h128(&s.canon()), nontrivial: s.nontrivial(), actions: s.actions() })
+        });
+        match r {
+            Ok(v) => v,
+            Err(p) => Err((h.len().saturating_sub(1), format!("panic :: {p}"))),
+        }
+    };
+    let mut st = BfsStats::default();
+    let mut col = Collector::new();
+    let mut seen: HashSet<u128> = HashSet::new();
+    let root = match eval(&[]) {
+        Ok(n) => n,
+        Err((_, m)) => {
+            col.add(vec![], m);
+            return (st, col.v);
+        }
+    };
+    seen.insert(root.canon);
+    st.states = 1;
+    let mut frontier: Vec<(Vec<S::Action>, Vec<S::Action>)> = vec![(vec![], root.actions)];
+    'outer: for d in 0..depth {
+        let mut next = Vec::new();
+        st.max_frontier = st.max_frontier.max(frontier.len());
+        for (hist, acts) in frontier {
+            for a in acts {
+                st.transitions += 1;
+                let mut h2 = hist.clone();
+                h2.push(a);
+                match eval(&h2) {
+                    Err((i, m)) => col.add(h2[..=i.min(h2.len() - 1)].to_vec(), m),
+                    Ok(n) => {
+                        if seen.insert(n.canon) {
+                            st.states += 1;
+                            if n.nontrivial {
+                                st.nontrivial_states += 1;
+                                if st.nontrivial_keys.len() < 200_000 {
+                                    st.nontrivial_keys.push(n.canon as u64);
+                                }
+                            }
+                            if st.samples.len() < 4 && (st.states % 97 == 3 || d + 1 == depth) {
+                                st.samples.push(format!("{:?}", h2));
+                            }
+                            next.push((h2, n.actions));
+                            if max_states != 0 && st.states >= max_states {
+                                st.capped = true;
+                                break 'outer;
+                            }
+                        }
+                    }
+                }
+            }
+            if col.full() {
+                st.capped = true;
+                break 'outer;
+            }
+        }
+        st.depth_completed = d + 1;
+        frontier = next;
+        if frontier.is_empty() {
+            break;
+        }
+    }
+    (st, col.v)
+}
+
+/// Replay a recorded history as one isolated execution.
+pub fn replay_history_iso<S: System, M: Fn() -> S + Sync>(seed: u64, make: M, case: &Value) -> Result<(), String>
+where
+    S::Action: Send + Sync,
+{
+    let hist: Vec<S::Action> = serde_json::from_value(case["history"].clone()).map_err(|e| format!("bad history in replay file: {e}"))?;
+    crate::shim::isolated_scoped(seed, || {
+        let mut s = make();
+        s.invariant()?;
+        for a in &hist {
+            s.step(a)?;
+            s.invariant()?;
+        }
+        Ok(())
+    })
+    .unwrap_or_else(|p| Err(format!("panic :: {p}")))
+}
